@@ -20,8 +20,8 @@ git checkout -q -- .
 go test -vet=off -count=1 $runf "./$pkg" >/tmp/demo_without.log 2>&1 && res="$res demo_without=pass" || res="$res demo_without=FAIL(!)"
 rm -f "$pkg"/zz_demo_test.go
 # run the checks against /repo with the change applied
-cd /verif
-git -C /repo apply "$md/patch.diff" || { echo "$res REPO-APPLY-FAILED"; exit 2; }
+cd /verif; repo=${VERIF_REPO:-/repo}
+git -C $repo apply "$md/patch.diff" || { echo "$res REPO-APPLY-FAILED"; exit 2; }
 for c in $prop "$@"; do
   out=$(timeout 1500 ./check $c quick 2>&1 | grep -E "^(OK|VIOLATION|INCONCLUSIVE)" | head -2 | cut -c1-260)
   case "$out" in
@@ -31,5 +31,5 @@ for c in $prop "$@"; do
   esac
   echo "   [$c] $(echo "$out" | head -1)"
 done
-git -C /repo checkout -q -- .
+git -C $repo checkout -q -- .
 echo "$res"
